@@ -31,7 +31,7 @@ func dec(doc string) {
 
 func enc(ts []rdf.Triple) string {
 	var buf bytes.Buffer
-	pm := iri.NewPrefixManager(iri.PrefixMappingList{{Prefix: "ex", Expanded: "http://e/"}, {Prefix: "xsd", Expanded: "http://www.w3.org/2001/XMLSchema#"}})
+	pm := iri.PrefixMappingList{{Prefix: "ex", Expanded: "http://e/"}, {Prefix: "xsd", Expanded: "http://www.w3.org/2001/XMLSchema#"}}
 	e, err := turtle.NewEncoder(&buf, turtle.EncoderConfig{}.SetPrefixes(pm))
 	if err != nil {
 		panic(err)
